@@ -71,7 +71,13 @@ type rlOpts struct {
 	Siblings     bool `json:"siblings"`
 	ZeroPrefixed bool `json:"zeroPrefixed"` // the enum declares its zero option explicitly, spelled with the prefix (COLOR_UNSPECIFIED)
 	AcroName     bool `json:"acroName"`     // the subject property is spelled subjectID (proto subject_id): the JSON name is the declared one
+	// ListRepeat: an enum `in` / `notIn` list names its first option twice, the second time as written ("same") or with the
+	// enum's prefix ("prefixed": ALPHA and COLOR_ALPHA are one option); the list denotes the same set of options
+	ListRepeat string `json:"listRepeat"`
 }
+
+// rlListRepeat is the ListRepeat choice of the case being printed (the drivers are sequential)
+var rlListRepeat string
 
 // rlSubject is the declared name of the subject property
 func rlSubject(o rlOpts) string {
@@ -144,12 +150,23 @@ func rlBoolLit(f string) string {
 
 func rlNames(idx []int) string {
 	var out []string
-	for _, i := range idx {
+	for k, i := range idx {
+		name := ""
 		if i == 0 {
-			out = append(out, `"UNSPECIFIED"`) // the explicitly declared zero option
+			name = "UNSPECIFIED" // the explicitly declared zero option
 		}
 		if i >= 1 && i <= len(rlEnumOptions) {
-			out = append(out, fmt.Sprintf("%q", rlEnumOptions[i-1]))
+			name = rlEnumOptions[i-1]
+		}
+		if name == "" {
+			continue
+		}
+		out = append(out, fmt.Sprintf("%q", name))
+		if k == 0 && rlListRepeat == "same" {
+			out = append(out, fmt.Sprintf("%q", name))
+		}
+		if k == 0 && rlListRepeat == "prefixed" {
+			out = append(out, fmt.Sprintf("%q", "COLOR_"+name))
 		}
 	}
 	return "[" + strings.Join(out, ", ") + "]"
@@ -396,7 +413,9 @@ func rlFileText(units []rlUnit, o rlOpts) string {
 
 // rlCompile compiles the units in one in-memory package; returns message descriptors by name and printed text.
 func rlCompile(units []rlUnit, o rlOpts) (map[string]protoreflect.MessageDescriptor, linker.File, string, error) {
+	rlListRepeat = o.ListRepeat
 	text := rlFileText(units, o)
+	rlListRepeat = ""
 	res, _, err := compileBundle(newMemFiles(map[string]string{rlFile: text}), nil)
 	if err != nil {
 		return nil, nil, text, err
